@@ -35,7 +35,7 @@ def _seed_vals(draw, n):
 def cases(draw):
     dts = draw(st.sampled_from([("float64",), ("float32",), ("float16",), FLOATS, ("float64", "float32")]))
     b = draw(functional_program(max_ops=8, min_ops=2, allow_const_view=False, dtypes=dts, allow_int=False,
-                                ufunc_options=True))
+                                ufunc_options=True, ufunc_where=False))  # (where= without out= leaves unspecified values)
     r = b.ref
     tens = [h for h in r.env if r.is_tensor[h] and not r.const[h]]
     if not tens:
